@@ -22,12 +22,16 @@ Inductive bop :=
 | BUnban (k : N) (t : Z) (was : bool)
 | BUse (k : N) (res : bool)
 | BRestart
+| BExpiry (k : N) (expires : bool)     (* does the persisted record of the key carry an expiry time *)
 | BUseB (k : N) (res : bool)
 | BMergeAB (res : list bool).
 
 Inductive case :=
 | CHist (durable : bool) (n : N) (ops : list op) (finals : list (dump * list bool))
 | CBan (ops : list bop)
+(* lookups racing ban / unban toggles: number of answers, read right after an acknowledged toggle,
+   that did not show it *)
+| CBanRace (toggles wrong : N)
 (* payloads (durable?, content) queued with Send on one link of mesh's gossipSender, then what
    deliver() handed to the connection *)
 | CSender (ps : list (bool * dump)) (live : dump) (sent : list dump) (panicked : bool).
@@ -141,6 +145,11 @@ Definition bstep (s : bst) (o : bop) : bst :=
     BSt s1 (sb s) (bok s && Bool.eqb b res) (banned s)
         (book s && Bool.eqb res (existsb (N.eqb k) (banned s)))      (* oracle: refused iff banned *)
   | BRestart => BSt (bs_restart (sa s)) (sb s) (bok s) (banned s) (book s)
+  | BExpiry k ex =>
+    (* Durable.store gives tombstones a 6 h lifetime; the record of a key that is banned must not expire *)
+    let e := fetch (bs_db (sa s)) k in
+    BSt (sa s) (sb s) (bok s && Bool.eqb ex (match bs_db (sa s) !! k with Some _ => is_removed e | None => false end))
+        (banned s) (book s && (if existsb (N.eqb k) (banned s) then negb ex else true))
   | BUseB k res =>
     let (b, s1) := bs_has (sb s) k in
     BSt (sa s) s1 (bok s && Bool.eqb b res) (banned s) (book s)
@@ -172,6 +181,7 @@ Definition check (c : case) : N :=
   | CBan ops =>
     let s := fold_left bstep ops (BSt bs0 bs0 true [] true) in
     bit (bok s) 1 |+| bit (book s) 2
+  | CBanRace toggles wrong => bit (wrong =? 0) 2
   | CSender ps live sent panicked =>
     let model := fold_left (fun sl x => slot_send sl (fst x) (list_to_map (snd x))) ps SNone in
     let corr := negb panicked &&
